@@ -832,7 +832,8 @@ void ScriptEmitter::EmitCatch(sval_t val, const opval_t* try_begin_code_pos, sou
         emitter.canContinue = canContinue;
         emitter.EmitRoot(val);
 
-        numSetLabels = countManager.getSizeInfo().numCatchLabels;
+        // every label the catch body can add to this set (plain, private or case-style)
+        numSetLabels = countManager.getSizeInfo().numLabels + countManager.getSizeInfo().numCaseLabels;
     }
 
     StateScript* const oldStateScript = stateScript;
@@ -1680,8 +1681,8 @@ void ScriptEmitter::EmitSwitch(sval_t val, sourceLocation_t sourceLoc)
         emitter.switchDepth = 1;
         emitter.EmitRoot(val);
 
-        // reserve number of case
-        numSetLabels = countManager.getSizeInfo().numCaseLabels;
+        // reserve number of case (private labels land in this set as well)
+        numSetLabels = countManager.getSizeInfo().numLabels + countManager.getSizeInfo().numCaseLabels;
     }
 
     oldStateScript = stateScript;
@@ -2281,8 +2282,11 @@ size_t ScriptCompiler::Preallocate(ProgramScript* script, sval_t rootNode, opval
     size_t totalAllocation = sizeInfo.progLength;
     totalAllocation += sizeof(StateScript) * sizeInfo.numSwitches;
     totalAllocation += sizeof(CatchBlock) * sizeInfo.numCatches;
-    totalAllocation += labelMap::countEntryBytes(sizeInfo.numLabels);
-    totalAllocation += labelMap::countEntryBytes(sizeInfo.numCaseLabels);
+    // every label is one entry in exactly one set; the script's own set reserves a slot for each,
+    // and each switch / catch set reserves a table of at most that many slots
+    const size_t numAllLabels = sizeInfo.numLabels + sizeInfo.numCaseLabels;
+    totalAllocation += labelMap::countEntryBytes(numAllLabels);
+    totalAllocation += sizeof(void*) * numAllLabels * (sizeInfo.numSwitches + sizeInfo.numCatches);
 
     const bool isDeveloperMode = ScriptContext::Get().GetSettings().IsDeveloperEnabled();
     if (isDeveloperMode)
@@ -2321,7 +2325,7 @@ size_t ScriptCompiler::Preallocate(ProgramScript* script, sval_t rootNode, opval
     progBuffer = new (allocator) opval_t [sizeInfo.progLength];
 
     // reserve the initial label and other labels
-    script->GetStateScript().Reserve(sizeInfo.numLabels);
+    script->GetStateScript().Reserve(numAllLabels);
 
     return sizeInfo.progLength;
 }
